@@ -413,6 +413,14 @@ func (b *Builder) Script(extra []string, wantModel bool) string {
 		sb.WriteString(e)
 		sb.WriteString(")\n")
 	}
+	// redundant but helpful: an asserted name whose definition is a conjunction implies its conjuncts; the conjuncts
+	// that are themselves defined names (reachability conditions of earlier blocks, which carry the loop invariants)
+	// are asserted directly, so that the quantifiers inside them are active from the start
+	for _, c := range b.impliedNamesIfEnabled(extra) {
+		sb.WriteString("(assert ")
+		sb.WriteString(c)
+		sb.WriteString(")\n")
+	}
 	sb.WriteString("(check-sat)\n")
 	return sb.String()
 }
@@ -685,7 +693,99 @@ func (e *EventTable) Decl() string {
 // cardFn declares the cardinality function of key sets (Array K Bool) with the axioms a counting loop needs.
 func (b *Builder) cardFn(ks string) string {
 	fn := b.declFun("card:"+ks, []string{"(Array " + ks + " Bool)"}, "Int")
-	b.rawDecl("cardax:"+ks, fmt.Sprintf("(assert (forall ((s (Array %s Bool))) (! (and (>= (%s s) 0) (=> (= (%s s) 0) (= s ((as const (Array %s Bool)) false)))) :pattern ((%s s)))))\n(assert (= (%s ((as const (Array %s Bool)) false)) 0))\n"+
-		"(assert (forall ((s (Array %s Bool)) (k %s)) (! (= (%s (store s k true)) (+ (%s s) (ite (select s k) 0 1))) :pattern ((%s (store s k true))))))", ks, fn, fn, ks, fn, fn, ks, ks, ks, fn, fn, fn))
+	b.rawDecl("cardax:"+ks, fmt.Sprintf("(assert (forall ((s (Array %s Bool))) (! (and (>= (%s s) 0) (=> (= (%s s) 0) (= s ((as const (Array %s Bool)) false)))) :pattern ((%s s)) :qid e6_smt_696)))\n(assert (= (%s ((as const (Array %s Bool)) false)) 0))\n"+
+		"(assert (forall ((s (Array %s Bool)) (k %s)) (! (= (%s (store s k true)) (+ (%s s) (ite (select s k) 0 1))) :pattern ((%s (store s k true))) :qid e7_smt_697)))", ks, fn, fn, ks, fn, fn, ks, ks, ks, fn, fn, fn))
 	return fn
+}
+
+// impliedNames: defined Bool names that are true whenever all of the given terms are true (closure over conjunctions).
+func (b *Builder) impliedNames(asserted []string) []string {
+	var out []string
+	seen := map[string]bool{}
+	var visit func(term string, depth int)
+	visit = func(term string, depth int) {
+		term = strings.TrimSpace(term)
+		if depth > 200 {
+			return
+		}
+		if strings.HasPrefix(term, "(and ") && strings.HasSuffix(term, ")") {
+			for _, a := range topLevelArgs(term[5 : len(term)-1]) {
+				visit(a, depth+1)
+			}
+			return
+		}
+		if strings.ContainsAny(term, "() ") {
+			return
+		}
+		idx, ok := b.defOf[term]
+		if !ok || seen[term] {
+			return
+		}
+		seen[term] = true
+		if depth > 0 {
+			out = append(out, term)
+		}
+		def := b.asserts[idx] // (= name body)
+		pre := "(= " + term + " "
+		if strings.HasPrefix(def, pre) && strings.HasSuffix(def, ")") {
+			visit(def[len(pre):len(def)-1], depth+1)
+		}
+	}
+	for _, a := range asserted {
+		visit(a, 0)
+	}
+	return out
+}
+
+// topLevelArgs splits a sequence of s-expressions.
+func topLevelArgs(s string) []string {
+	var out []string
+	depth, start := 0, -1
+	inBar := false
+	for i := 0; i < len(s); i++ {
+		c := s[i]
+		if c == '|' {
+			inBar = !inBar
+			if start < 0 {
+				start = i
+			}
+			continue
+		}
+		if inBar {
+			continue
+		}
+		switch c {
+		case '(':
+			if depth == 0 && start < 0 {
+				start = i
+			}
+			depth++
+		case ')':
+			depth--
+			if depth == 0 && start >= 0 && s[start] == '(' {
+				out = append(out, s[start:i+1])
+				start = -1
+			}
+		case ' ', '\n', '\t':
+			if depth == 0 && start >= 0 {
+				out = append(out, s[start:i])
+				start = -1
+			}
+		default:
+			if depth == 0 && start < 0 {
+				start = i
+			}
+		}
+	}
+	if start >= 0 && depth == 0 {
+		out = append(out, s[start:])
+	}
+	return out
+}
+
+func (b *Builder) impliedNamesIfEnabled(extra []string) []string {
+	if os.Getenv("GVC_FLATTEN") == "" {
+		return nil
+	}
+	return b.impliedNames(extra)
 }
